@@ -8,7 +8,7 @@ EXPLANATION = ('Value-flow normal forms and loop summaries of the ESS helper of 
                'P_k <= 0, running-minimum clamp, tau = -1 + 2 sum P_k, ESS = m h / tau; path switch at 100 rows; brute force: centred, (1/h) sum_{t<h-lag} x_t x_{t+lag}; '
                'FFT: centred, zero-padded to a power of two >= 2h-1 (loop summary of the doubling), |X|^2, inverse, real part, first h lags, scale 1/(n_padded h); '
                'lag-0 consistency of the normaliser with W. Equality of the two paths up to rounding (the convolution theorem) and the AR(1)/i.i.d. asymptotics are not decided.')
-FLOORS = {'obligations': 22}   # counted on the reference tree; fewer instantiated obligations is reported, never passed silently
+FLOORS = {'obligations': 24}   # counted on the reference tree; fewer instantiated obligations is reported, never passed silently
 TECHNIQUE = 'value-flow normal form + loop summaries (exit conditions, carried minima, doubling loop) vs specification table'
 R3 = lambda s: {s: 3}
 
@@ -36,6 +36,9 @@ def body_of(ctx, key):
 
 
 def run(ctx):
+    for nm, root in (('stats::split_rhat_mean_ess', ctx.anchor('split', path='stats::split_rhat_mean_ess')), ('stats::ess_from_chainstats', ctx.anchor('efc', path='stats::ess_from_chainstats'))):
+        if root is not None:
+            narrowing_budget(ctx, 'C12', nm, [root], {}, why='a conversion to a fixed narrower float type (or an f64 -> element-type read-back) on this path changes values for wider element types / back ends', sp=root['sp'])
     # the ESS a user sees comes through RunStats::from(view) -> from_f32_view -> split_rhat_mean_ess: the entry point must hand the
     # LOGICAL array on (element-wise conversion in logical order), whatever the memory layout of the view (shared with C11)
     from .C11 import runstats
